@@ -24,6 +24,7 @@ THEOREMS = ["copy_reassembles", "restore_any_reader", "restore_snapshot", "snaps
             "no_mixed_view", "every_read_sees_pinned", "swap_excludes_readers", "no_deadlock_flat",
             "restore_under_write_lock", "tx_entry_points_guarded", "code_no_mixed_view",
             "old_protocol_deadlock_reachable", "no_reentrant_read_lock", "all_entry_points_flat", "code_no_deadlock",
+            "in_tx_apis_take_no_read_lock", "helpers_take_no_read_lock", "code_in_tx_call_no_deadlock",
             "flat_population_completes", "code_population_completes",
             # the restore in stages with calls from inside the reader (C17/Staged.lean)
             "persist_stage_transparent", "staged_restore_closed_form", "staged_restore_position_independent",
@@ -37,6 +38,8 @@ THEOREMS = ["copy_reassembles", "restore_any_reader", "restore_snapshot", "snaps
 TABLE_OBLIGATIONS = ["restore_under_write_lock (Generated/DbLocks.lean, regenerated from boltz/db.go)",
                      "tx_entry_points_guarded (same table)", "no_reentrant_read_lock (same table)",
                      "all_entry_points_flat (same table)",
+                     "helpers_take_no_read_lock (dbInTxPrograms: every exported method that opens no transaction of its own, Stats excepted; same file)",
+                     "in_tx_apis_take_no_read_lock (dbInTxPrograms: every exported DbImpl method on its in-transaction path; dbInTxApis: methods taking the transaction + methods the repository calls inside a transaction body; same file)",
                      "timeline_steps_expected (dbMetaOps: bolt transactions of GetTimelineId and the marker reads / guard / idF / writes inside, same file)",
                      "marker_steps_expected (dbMetaOps: GetSnapshotId, MarkAsSnapshot, same file)",
                      "dbimpl_state_modelled (field list of `type DbImpl struct` + package-level vars of boltz/db.go, same file)"]
@@ -49,7 +52,8 @@ RULE = ("sequential histories over {Update commit/rollback, Snapshot, View+Snaps
         "the property's shape (route x restore call x mode), every chunk size x EOF style against a small snapshot (and against a > 1 MB one: 4 in quick, all in thorough) + seeded random ones (75% forced to contain snapshot ... "
         "restore; gsid; 2 timeline requests; dump); concurrent populations of View/Update/Batch/StreamToWriter/"
         "GetSnapshotId/GetTimelineId goroutines against RestoreSnapshot goroutines (each transaction must read all "
-        "keys equal, twice), with and without concurrent Snapshot, 3 staged re-entrancy scenarios, and K (2-8) GetTimelineId requests (default / initIfEmpty) released "
+        "keys equal, twice), with and without concurrent Snapshot, 3 staged re-entrancy scenarios, one `stage api:<Method>` per DbImpl method of the regenerated lock table (called by reflection from "
+        "inside an Update body once a RestoreSnapshot has reached reloadLock.Lock(); quick: the methods without a bolt transaction of their own, thorough: all), and K (2-8) GetTimelineId requests (default / initIfEmpty) released "
         "together after a restore with the first idF call holding its write transaction open for up to 200 ms (one idF call, one id "
         "returned by all, stored, and returned by a later request), all under a "
         "2.5 s watchdog. non-trivial = sequential history in which a restore of an existing slot happened after a "
@@ -248,6 +252,7 @@ def run(ctx, replay_cases=None):
         lines = replay_cases
     else:
         lines = common.corpus_cases("c17") + [l for l in common.gen_cases(ctx, "c17").split("\n") if l]
+        lines += [l for l in api_stage_cases(ctx) if l not in lines]
     impl, model, spec = run_three(ctx, lines)
     n = len(lines)
     if len(impl) != n or len(model) != n or len(spec) != n:
@@ -328,6 +333,27 @@ def run(ctx, replay_cases=None):
                          no_input=True)
     return common.finish(ctx, trusted_base=trusted,
                          checker_cmd="cd /verif/lean && lake build StorageModel.Properties.C17 && lake env lean <#print axioms of every property theorem> (bin/check C17 does both, after regenerating Generated/DbLocks.lean from boltz/db.go)")
+
+
+API_EXCLUDED = ("Close", "Open", "RestoreSnapshot", "RestoreFromReader")
+
+
+def api_stage_cases(ctx):
+    """one `stage api:<Method>` per DbImpl method of the lock table regenerated from boltz/db.go (read under the
+    build lock): the method is called from inside a transaction body while a restore waits for the write lock.
+    Quick: the methods that do not open a bolt transaction of their own on their in-transaction path (every helper a
+    transaction body may call; a read lock newly taken by one of them is exercised without touching the harness);
+    thorough: all of them (for the transaction entry points the model predicts, and the run confirms, a hang)."""
+    t = ctx.lock_table or {}
+    progs = t.get("in_tx_programs") or {}
+    out = []
+    for name in sorted(progs):
+        if name in API_EXCLUDED:
+            continue
+        if ctx.tier != "thorough" and "dbtx" in (progs[name] or []):
+            continue
+        out.append("stage api:" + name)
+    return out
 
 
 def _read_facts():
